@@ -347,3 +347,50 @@ def r_pointer_scaling(P, rep, rule):
                 ok = isinstance(num, Obj) and num.fields.get('kind') == E['ND_NUM'] and num.fields.get('val') == 8 and nt in ('int', 'long')
                 detail = 'the divisor is %r of type %s: it must be the element size with a signed type (an unsigned divisor makes negative differences huge)' % (num.fields.get('val') if isinstance(num, Obj) else num, nt)
         rep.ob(rule, key, ok, 'pointer difference: %s' % detail, where=where)
+
+
+def r_address_of_type(P, rep, rule):
+    """add_type(ND_ADDR): the result is a pointer to the operand's own type (C11 6.5.3.2p3) - for an array operand a pointer to the array,
+    not to its first element - and ND_DEREF of it gives the operand type back"""
+    T = Types(P)
+    tu = P.unit('type.c')
+    if 'add_type' not in tu.functions:
+        raise AnalysisBroken('type.c: add_type vanished')
+    E = tu.enums
+    where = 'type.c:%d' % tu.fn('add_type').line
+    for shape in ('int', 'array-of-int', 'array-of-array', 'pointer', 'struct'):
+        it = Interp(P, tu, {'opaque': ['error_tok']})
+        box = {}
+
+        def mk(ctx, shape=shape):
+            it.ctx = ctx
+            i = T.glob(it, 'ty_int')
+            def call(f, *a):
+                u, fn = it.find_def(f)
+                return it.call_fn(u, fn, list(a))
+            if shape == 'int':
+                t = i
+            elif shape == 'array-of-int':
+                t = call('array_of', i, 5)
+            elif shape == 'array-of-array':
+                t = call('array_of', call('array_of', i, 5), 3)
+            elif shape == 'pointer':
+                t = call('pointer_to', i)
+            else:
+                t = Obj('Type', lazy=False, label='struct S')
+                t.fields.update({'kind': E['TY_STRUCT'], 'size': 12, 'align': 4, 'base': 0, 'is_unsigned': 0})
+            lhs = Obj('Node', lazy=False, label='operand')
+            lhs.fields.update({'kind': E['ND_VAR'], 'ty': t, 'tok': Obj('Token', lazy=True, label='tok'), 'lhs': 0, 'rhs': 0, 'cond': 0, 'then': 0, 'els': 0, 'init': 0, 'inc': 0, 'body': 0, 'args': 0})
+            n = Obj('Node', lazy=False, label='addr')
+            n.fields.update({'kind': E['ND_ADDR'], 'ty': 0, 'lhs': lhs, 'rhs': 0, 'cond': 0, 'then': 0, 'els': 0, 'init': 0, 'inc': 0, 'body': 0, 'args': 0, 'tok': lhs.fields['tok']})
+            box['t'], box['n'] = t, n
+            return [n]
+        outs = [o for c, o in it.explore('add_type', mk) if o[0] == 'ret']
+        key = 'type.c:add_type:ND_ADDR/%s' % shape
+        if len(outs) != 1:
+            rep.undecided(rule, key, 'add_type has %d returning paths on &(%s)' % (len(outs), shape), where=where); continue
+        rt = box['n'].fields.get('ty')
+        rt = it.settle(rt) if isinstance(rt, View) else rt
+        ok = isinstance(rt, Obj) and rt.fields.get('kind') == E['TY_PTR'] and rt.fields.get('base') is box['t']
+        what = 'pointer to %s' % ('the first element\'s type' if (isinstance(rt, Obj) and isinstance(box['t'], Obj) and rt.fields.get('base') is box['t'].fields.get('base')) else 'another type')
+        rep.ob(rule, key, ok, '&x for x of type %s has type %s; C11 6.5.3.2p3: pointer to the type of x (for an array: `&a + 1` steps over the whole array, `sizeof *&a` is the size of the array)' % (shape, what), where=where)
